@@ -1,9 +1,9 @@
 package props
 
 import (
-	"go/types"
 	"fmt"
 	"go/token"
+	"go/types"
 	"sort"
 	"strings"
 
@@ -166,7 +166,7 @@ func runNDPSiblings(c *Ctx) {
 			st = core.Violated
 		}
 		r.Add(core.Obligation{Rule: "ndp-siblings", Key: "ndp-siblings " + n, Func: core.FuncName(sd.uf), Pos: c.P.Pos(sd.uf.Pos()), Status: st,
-			Basis: "big-endian integer windows (offsets from the start of the option): " + render(sd.m),
+			Basis:  "big-endian integer windows (offsets from the start of the option): " + render(sd.m),
 			Detail: fmt.Sprintf("%s.marshal writes its integers at %s of the option, %s.unmarshal reads them at %s: what the library reads from a received option is not the field the sender (and RFC 4861/4191/8106) put there", n, render(sd.m), n, render(sd.u))})
 	}
 }
